@@ -66,6 +66,9 @@ class C18(Check):
         yield from families.undeclared_family(3, spaces.U(3, 0, 4), [{'rule': 'mpls'}])
         yield from families.seats_ties(3, spaces.U(3, 4, 4), ties='id', cfgs=D + menus[::7])
         yield from families.seats_ties(4, spaces.W(4, 2, 3, (1, 2)), seats=(2, 3), ties='id', cfgs=D if not q else D[4:])
+        coarse = [{'rule': 'meek', 'arithmetic': 'guarded', 'precision': 2}, {'rule': 'warren', 'arithmetic': 'guarded', 'precision': 3},
+                  {'rule': 'meek', 'arithmetic': 'guarded', 'precision': 1}]
+        yield from families.repo_files(D[::2] + coarse, max_bytes=4000 if q else 10 ** 7)    # real ballot files, also under far too coarse arithmetic
         if tier == 'thorough':
             yield from families.seats_ties(3, spaces.U(3, 5, 5), ties='id', cfgs=D)
             yield from families.seats_ties(3, spaces.W(3, 3, 3, (1, 2, 3, 5, 8)), seats=(1, 2), ties='id', cfgs=D)
